@@ -1,2 +1,3 @@
 import SpoxModel.Props.C09
 /-! `#print axioms` for every property theorem of C09; parsed by ./check. -/
+#print axioms C09.min_opset_ge_14
